@@ -100,12 +100,23 @@ class SplitStream(Stream):
     shard_size = 20
 
     def generate(self, rng, tier):
-        return [gen_graph(rng, tier) for _ in range(200 if tier == "quick" else 3000)]
+        out = [gen_graph(rng, tier) for _ in range(200 if tier == "quick" else 3000)]
+        for d in out:
+            d["presolve"] = rng.choice([0, 0, 1, 2])
+        return out
 
     def run(self, d):
         try:
             sol, sts = build_ordered(d)
             ids = {id(st): i for i, st in sts.items()}
+            if d.get("presolve"):
+                # the circuit is solved (once or twice) BEFORE it is split: the components are those of the wiring,
+                # whatever the elimination of an earlier solve paired up
+                for _ in range(d["presolve"]):
+                    try:
+                        sol.solve()
+                    except Exception:
+                        pass
             subs = sol.split()
             parts = []
             for sub in subs:
@@ -131,7 +142,7 @@ class SplitStream(Stream):
         return len(d["comps"]) >= 3 and len(d["conns"]) >= 1
 
     def classify(self, d):
-        return "c%d/l%d" % (len(d["comps"]), len(d["conns"]))
+        return "c%d/l%d%s" % (len(d["comps"]), len(d["conns"]), "/presolved" if d.get("presolve") else "")
 
     def shrink(self, d):
         out = []
